@@ -21,7 +21,8 @@ Definition ropt (r : res (option (list N))) : res val :=
 Definition opt_text (v : val) : option (option (list N)) :=
   match v with VL [] => Some None | VL [VB c] => Some (Some c) | _ => None end.
 
-Definition api (ask : string -> list val -> val) : list api_entry := [
+Definition api (ask : string -> list val -> val) : list api_entry :=
+  let blake := o_blake2b ask 64 in [
   ("xmr_encode", fun a => match a with [VB b] => rb (xmr_encode b) | _ => bad_call end);
   ("xmr_decode", fun a => match a with [VB s] => rb (xmr_decode s) | _ => bad_call end);
   (* IntegerUtils / BytesUtils; booleans are VN 0/1, "None" width is 0 *)
@@ -54,5 +55,9 @@ Definition api (ask : string -> list val -> val) : list api_entry := [
   ("b32_encode_nopad", fun a => match a with [VB b; c] =>
       match opt_text c with Some c => rb (b32_encode_no_padding b c) | None => bad_call end | _ => bad_call end);
   ("b32_decode", fun a => match a with [VB s; c] =>
-      match opt_text c with Some c => rb (b32_decode s c) | None => bad_call end | _ => bad_call end)
+      match opt_text c with Some c => rb (b32_decode s c) | None => bad_call end | _ => bad_call end);
+  (* SS58 *)
+  ("ss58_encode", fun a => match a with [VB d; VZ f] => rb (ss58_encode blake d f) | _ => bad_call end);
+  ("ss58_decode", fun a => match a with [VB s] =>
+      rmap (fun r => VL [VN (fst r); VB (snd r)]) (ss58_decode blake s) | _ => bad_call end)
 ].
